@@ -6,6 +6,7 @@ package telemetry
 
 import (
 	"fmt"
+	"io"
 	"log"
 	"os"
 	"os/exec"
@@ -269,8 +270,13 @@ func child(config Config) {
 	if mode, _ := telemetry.Default.Mode(); mode == "off" {
 		// The mode was switched off after the parent started this process:
 		// nothing may be written any more, not even the uploader's
-		// directories or its debug log.
-		upload = false
+		// directories, its debug log, or the crash monitor's copy of a crash
+		// report it cannot parse. Keep reading the parent's crash output,
+		// so that the parent is not disturbed, and record nothing.
+		if config.ReportCrashes {
+			io.Copy(io.Discard, os.Stdin)
+		}
+		os.Exit(0)
 	}
 
 	// The crashmonitor and/or upload process may themselves record counters.
